@@ -2,8 +2,39 @@
 import engine_tab as tab
 import engine_tab2 as tab2
 import engine_err as err
+import engine_pur as pur
 
 PROPS = {
+    "C01": {
+        "rules": [("PUR-1", pur.pur1), ("PUR-2", pur.pur2), ("PUR-3", pur.pur3), ("PUR-4", pur.pur4)],
+        "explanation": "Decides C01 as an effect property: in safe Rust a function of its arguments can only become nondeterministic through hash-collection "
+                       "iteration order, ambient inputs (time, env, fs, threads, randomness, addresses), state surviving a call (interior-mutable statics, "
+                       "thread-locals) or unsafe reads. PUR-1: no such source is an (external) callee reachable from run / trace_changes / get_trace_string / "
+                       "run_wasm over the resolved call graph, unsafe blocks enumerated; PUR-2: every order-exposing iteration of a std hash collection (lib, "
+                       "bin, static initialisers) feeds only an order-insensitive sink; PUR-3: all statics immutable and Freeze (lazy_static cells of Freeze "
+                       "payloads), Rule/Word/Transformation Freeze; PUR-4: SubRule's RefCell binding tables are fresh per application or cleared before every "
+                       "match attempt.",
+        "does_not_decide": "nothing of C01 is value-level; residue = trusted base (deny table complete for the std/dependency surface actually reached — the reached external callee list is written to evidence; serde_json / lazy_static internals deterministic; allocation failure and stack overflow ignored).",
+        "assumptions": ["deny table covers the nondeterminism channels of the reached std surface (list in evidence.analysed)",
+                        "Trie::insert is order-insensitive (children kept sorted; confirmed by reading)"],
+    },
+    "C10": {
+        "rules": [("PUR-3", pur.pur3), ("PUR-4", pur.pur4), ("PUR-5", pur.pur5)],
+        "explanation": "Decides the statelessness / grouping clause of C10: applying a rule list is a left fold `word = rule.apply(word)?` over groups and rules in "
+                       "order with no early exit, no adaptor and no other loop-carried state (PUR-5); the step depends only on its arguments: no global state "
+                       "(PUR-3), binding tables fresh or reset (PUR-4). Hence regrouping and empty groups cannot matter.",
+        "does_not_decide": "equality with the staged run through rendered text (needs the render/parse round trip, C09) and therefore nothing about `seq` beyond C20's clauses.",
+        "assumptions": ["Rule::apply's own determinism is C01's claim"],
+    },
+    "C11": {
+        "rules": [("PUR-1", pur.pur1), ("PUR-3", pur.pur3), ("PUR-4", pur.pur4), ("PUR-5", pur.pur5)],
+        "explanation": "Decides C11 structurally: one result per input line in input order (apply_rule_groups pushes exactly one word per word and one phrase per line, "
+                       "iterating front to back with no break/continue/adaptor; parse_phrases / phrases_to_string use only order- and count-preserving adaptors, "
+                       "split(' ') / + \" \" / one trim_end); no cross-word channel: the per-word loop starts from word.clone() and carries only the word, no "
+                       "global or thread-local state (PUR-1, PUR-3), binding tables fresh or reset per match attempt (PUR-4).",
+        "does_not_decide": "which error is reported when several words fail (parse errors of later words pre-empt run-time errors of earlier ones because all words are parsed first).",
+        "assumptions": [],
+    },
     "C17": {
         "rules": [("ERR-1", err.err1), ("ERR-2", err.err2), ("ERR-3", err.err3)],
         "explanation": "Decides the dispatch, payload and index-provenance clauses of C17: no call of an ASCAError formatter resolves to an impl whose "
